@@ -41,6 +41,8 @@ class Env:
         self.keyfn_real = None
         if universe in ("tuple_keyfn", "tuple_typed"):
             self.keyfn_real = make_callback(faults, "keyfn", lambda t: t[0])
+        if universe == "repr_keyfn":
+            self.keyfn_real = make_callback(faults, "keyfn", lambda x: "k" + repr(x))
         if universe == "kitem_typed":
             self.ctor = K[self.KItem, str]
         elif universe == "str_typed":
@@ -81,6 +83,8 @@ class Env:
         u = self.universe
         if u in ("tuple_keyfn", "tuple_typed"):
             return item[0]
+        if u == "repr_keyfn":
+            return "k" + repr(item)
         if u.startswith("kitem") and type(item).__name__ == "KItem":
             return item.__dict__.get("k")
         return item
@@ -117,6 +121,8 @@ class Env:
             return src.choice(keys)
         if u == "int":
             return src.choice([0, 1, 2, 3, 7])
+        if u == "repr_keyfn":  # falsy and truthy items, identified by an explicit key function
+            return src.choice([0, 1, "", "a", ["tuple", []], ["tuple", [1]]])
         if u in ("tuple_keyfn", "tuple_typed"):
             return ["tuple", [src.choice(keys), src.choice([0, 1])]]
         if u.startswith("kitem"):
@@ -137,6 +143,8 @@ class Env:
             return ["list", [1]]  # unhashable, not a keyed spec
         if u in ("str", "int"):
             return ["list", [1]]
+        if u == "repr_keyfn":
+            return 7  # nothing is ill-formed for a repr-keyed untyped container (unhashable items have their own universe)
         return 5
 
 
@@ -208,6 +216,8 @@ class C13(Check):
                 op["vs"][src.randint(0, len(op["vs"]) - 1)] = env.gen_bad_item(src)
             if name == "add" and src.chance(0.15):
                 op["vs"] = 5  # not a sequence
+            elif src.chance(0.3):
+                op["as_keyed"] = True  # the operand is itself an (untyped) KeyedList sharing the key function
         elif name in ("remove", "contains", "index", "count"):
             op["v"] = existing_item_ref() if not bad else env.gen_bad_item(src)
             if name == "contains" and src.chance(0.3):
@@ -398,15 +408,15 @@ class C13(Check):
         if name == "append":
             return l.append(args["v"])
         if name == "extend":
-            return l.extend(args["vs"])
+            return l.extend(self.operand(env, op, args["vs"]))
         if name == "iadd":
             l2 = l
-            l2 += args["vs"]
+            l2 += self.operand(env, op, args["vs"])
             if l2 is not l:
                 raise AssertionError("+= returned a different object")
             return None
         if name == "add":
-            return l + args["vs"]
+            return l + self.operand(env, op, args["vs"])
         if name == "radd":
             return args["vs"] + l
         if name == "pop":
@@ -441,6 +451,20 @@ class C13(Check):
             del l[0:1]
             return None
         raise HarnessError(name)
+
+    @staticmethod
+    def operand(env, op, vs):
+        """Plain list operand, or -- when the op says so and it can be built -- an untyped KeyedList of the
+        same items sharing the key function (wrong-typed items included: an untyped container accepts them)."""
+        if not op.get("as_keyed") or not isinstance(vs, list):
+            return vs
+        from spec_classes.types import KeyedList
+
+        try:
+            env.faults.begin(None)
+            return KeyedList(list(vs), key=env.keyfn_real) if env.keyfn_real is not None else KeyedList(list(vs))
+        except Exception:
+            return vs
 
     # -- public reads ---------------------------------------------------------------------------
     def observe_mismatch(self, env, l, m):
@@ -493,7 +517,7 @@ class C13(Check):
             seen = set()
             for _ in range(src.randint(0, 4)):
                 it = env.gen_item(src)
-                k = repr(it[1][0] if isinstance(it, list) and it[0] == "tuple" else it[1]["k"] if isinstance(it, list) else it)
+                k = repr(env.key(env.build(it)))
                 if k not in seen:
                     seen.add(k)
                     init.append(it)
